@@ -349,36 +349,6 @@ theorem hasKey_eraseKey {α : Type} (m : List (Nat × α)) (id i : Nat) :
 
 /-! ### the ghost state of a history -/
 
-/-- `cur i` = token set of the text document `i` was last inserted with, while it is live;
-`stale i t` = a posting entry `(i, _)` under `t` that a `remove` with non-original text left behind. -/
-structure Ghost where
-  cur : Nat → Option (List Nat)
-  stale : Nat → Nat → Bool
-
-def Ghost.init : Ghost := ⟨fun _ => none, fun _ _ => false⟩
-
-def Ghost.has (g : Ghost) (i t : Nat) : Bool :=
-  match g.cur i with
-  | some T => T.contains t
-  | none => false
-
-def gstep (g : Ghost) : Op → Ghost
-  | .insert id tf =>
-    if tf.isEmpty || (g.cur id).isSome then g
-    else
-      { cur := fun i => if id = i then some (tf.map (·.1)) else g.cur i
-        stale := fun i t => if id = i then g.stale i t && !(tf.map (·.1)).contains t else g.stale i t }
-  | .remove id tf =>
-    { cur := fun i => if id = i then none else g.cur i
-      stale := fun i t => if id = i then (g.stale i t || g.has i t) && !(tf.map (·.1)).contains t else g.stale i t }
-  | .purge ids =>
-    { cur := fun i => if ids.contains i then none else g.cur i
-      stale := fun i t => if ids.contains i then false else g.stale i t }
-
-def grun (g : Ghost) : List Op → Ghost
-  | [] => g
-  | op :: ops => grun (gstep g op) ops
-
 theorem gstep_insert_fail (g : Ghost) (id : Nat) (tf : List (Nat × Nat))
     (h : tf.isEmpty = true ∨ (g.cur id).isSome = true) : gstep g (.insert id tf) = g := by
   unfold gstep; rcases h with h | h <;> simp [h]
@@ -443,8 +413,8 @@ theorem Rep.step {s : Index} {g : Ghost} (h : Rep s g) (op : Op) : Rep (step s o
       by_cases hi : id = i
       · subst hi
         simp only [if_true, beq_self_eq_true, Bool.true_and, Bool.false_or]
-        cases (match g.cur id with | some T => T.contains t | none => false) <;>
-          cases g.stale id t <;> cases (tf.map (·.1)).contains t <;> rfl
+        generalize (match g.cur id with | some T => T.contains t | none => false) = x
+        cases x <;> cases g.stale id t <;> cases (tf.map (·.1)).contains t <;> simp
       · have hb : (id == i) = false := by simp [hi]
         simp [hi, hb]
     unfold Bm25.remove
@@ -503,13 +473,6 @@ theorem Rep.run {s : Index} {g : Ghost} (h : Rep s g) (ops : List Op) : Rep (run
   | nil => exact h
   | cons op ops ih => exact ih (h.step op)
 
-/-- every `remove` of a live document names (at least) all tokens of the text it was inserted with -/
-def removesCover (g : Ghost) : List Op → Prop
-  | [] => True
-  | .remove id tf :: ops =>
-    (∀ T, g.cur id = some T → ∀ t ∈ T, t ∈ tf.map (·.1)) ∧ removesCover (gstep g (.remove id tf)) ops
-  | op :: ops => removesCover (gstep g op) ops
-
 theorem gstep_remove_stale (g : Ghost) (id : Nat) (tf : List (Nat × Nat)) (i t : Nat) :
     (gstep g (.remove id tf)).stale i t
       = if id = i then (g.stale i t || g.has i t) && !(tf.map (·.1)).contains t else g.stale i t := rfl
@@ -545,11 +508,12 @@ theorem no_stale_of_cover : ∀ (ops : List Op) (g : Ghost), removesCover g ops 
       | none => simp
       | some T =>
         by_cases ht : t ∈ T
-        · have := hc.1 T hT t ht
-          simp only [List.mem_map] at this
-          obtain ⟨a, ha, rfl⟩ := this
-          have hm : a.1 ∈ tf.map (·.1) := List.mem_map.2 ⟨a, ha, rfl⟩
-          simp [hm]
+        · have hcov := hc.1
+          unfold removeCovers at hcov
+          rw [hT] at hcov
+          have := (List.all_eq_true.1 hcov) t ht
+          simp only [List.contains_iff_mem] at this
+          simp [this]
         · simp [ht]
     · simp [hi, h0]
   | .purge ids :: ops, g, hc, h0 => by
